@@ -1461,3 +1461,295 @@ def rule_p6(P, tables):
     if n_derived < 40:
         raise E5Error(f"P6: only {n_derived} derived serde impls seen in the IR/BE crates")
     return findings, obl, {"p6_handwritten_serde_types": len(seen), "p6_derived_serde_impls": n_derived}
+
+
+def rule_p7(P):
+    """'Turning on emission of intermediate representation changes nothing about the font': Persistable::write unwraps the
+    serializer's result, so a persisted type whose serializer is PARTIAL (fails for some values that the compiler otherwise handles)
+    makes --emit-ir panic where the plain build succeeds.  serde's impls for PathBuf/Path/OsString reject non-UTF-8 contents and the
+    one for SystemTime rejects times before the epoch.  Census: every field of a serde-derived IR/BE type with such a type."""
+    findings, obl = [], []
+    PART = re.compile(r"std::path::PathBuf|std::path::Path\b|std::ffi::OsString|std::ffi::OsStr\b|std::time::SystemTime")
+    ser = set()
+    for im in P.impls:
+        tr = im.get("trait") or ""
+        if tr.endswith("::Serialize") and "serde" in tr and im.get("crate") in ("fontir", "fontbe", "fontdrasil") and im.get("exp"):
+            ser.add((im.get("self") or "").split("<")[0])
+    n_fields = 0
+    for k in sorted(ser):
+        a = P.adts.get(k)
+        if not a:
+            continue
+        for v in a.get("variants") or []:
+            for f in v["fields"]:
+                n_fields += 1
+                if any("skip" in str(x) for x in f.get("attrs") or []):
+                    continue
+                if PART.search(f["ty"]):
+                    vn = f"{v['name']}." if a.get("kind") == "Enum" else ""
+                    obl.append({"rule": "P7", "inst": f"{k}::{vn}{f['name']}: {f['ty']} is written by a serializer that fails on some values", "ok": False})
+                    findings.append({"rule": "P7", "key": f"P7|{k}::{vn}{f['name']}", "msg": f"{k}::{vn}{f['name']} ({f['ty']}) is persisted with serde's impl for that type, which returns an error for "
+                                     f"a non-UTF-8 path / pre-epoch time; Persistable::write unwraps it, so the same source that compiles without --emit-ir panics with it", "loc": a.get("span") or "", "detail": {}})
+    if len(ser) < 40 or n_fields < 150:
+        raise E5Error(f"P7: only {len(ser)} serde-derived types / {n_fields} fields seen in the IR/BE crates")
+    obl.append({"rule": "P7", "inst": f"{n_fields} fields of {len(ser)} serde-derived IR/BE types examined for partial serializers", "ok": True})
+    return findings, obl, {"p7_serde_types": len(ser), "p7_fields": n_fields}
+
+
+def rule_t7(P):
+    """'ids below 256 are used only where the specification allows': fvar and STAT find the name id of an axis or instance by
+    string, among ALL ids that carry that string (StaticMetadata::reverse_names), so the selecting predicate is what keeps a
+    spec-reserved id (family name 1, full name 4, ..) out of the tables.  For every predicate closure over NameId in the backend
+    (fontbe) this rule enumerates the paths that return true and requires each to have established either
+    `candidate >= NameId::new(k)` with k >= 256, or `candidate == C` for a reserved constant C that the allocator
+    (StaticMetadata::new) also treats as reusable - the two sides must agree, and the agreed set must be what the fvar
+    specification allows for an instance (2 and 17)."""
+    from common import norm_fn
+    SPEC_ALLOWED = {2, 17}     # fvar InstanceRecord.subfamilyNameID: "2, 17, or 256..32767"
+    findings, obl = [], []
+
+    def promoted_scalar(owner, idx):
+        pb = P.bodies.get(f"{owner}#promoted{idx}")
+        if not pb:
+            return None
+        for blk in pb["blocks"]:
+            for st in blk["s"]:
+                for o in st["rv"].get("o", []):
+                    k = o.get("k")
+                    if k and "scalar" in k and "NameId" in k.get("ty", ""):
+                        return int(k["scalar"]), k.get("uneval")
+        return None
+
+    # --- the allocator's side: reserved constants StaticMetadata::new compares a source name key against
+    alloc = set()
+    alloc_bodies = [k for k in P.bodies if norm_fn(k).startswith("fontir::ir::static_metadata::{impl}::new") or
+                    re.match(r"fontir::ir::static_metadata::\{impl#\d+\}::new($|::|#)", k)]
+    for k in alloc_bodies:
+        if "#promoted" not in k:
+            continue
+        owner, idx = k.rsplit("#promoted", 1)
+        ps = promoted_scalar(owner, idx)
+        if ps and ps[0] < 256:
+            alloc.add(ps[0])
+    if not alloc:
+        raise E5Error("T7: StaticMetadata::new compares against no reserved NameId constant (anchor moved?)")
+    ok = alloc == SPEC_ALLOWED
+    obl.append({"rule": "T7", "inst": f"StaticMetadata::new lets the default instance reuse exactly the reserved ids {sorted(alloc)} (specification: {sorted(SPEC_ALLOWED)})", "ok": ok})
+    if not ok:
+        findings.append({"rule": "T7", "key": "T7|alloc|" + ",".join(map(str, sorted(alloc))),
+                         "msg": f"StaticMetadata::new skips registering a font-specific name when the default instance's name equals the record with id {sorted(alloc)}; the fvar specification "
+                                f"allows only {sorted(SPEC_ALLOWED)} below 256 for subfamilyNameID", "loc": P.body_file_line(alloc_bodies[0].split('#')[0]), "detail": {}})
+
+    # --- the selecting side
+    preds = []
+    for key, b in P.bodies.items():
+        if b.get("crate") != "fontbe" or b.get("dk") != "Closure" or "#promoted" in key:
+            continue
+        lt = b.get("locals") or []
+        if len(lt) > 2 and lt[0] == "bool" and re.fullmatch(r"&+write_fonts::font_types::NameId", lt[2]) and b.get("argc") == 2:
+            preds.append(key)
+    for key in sorted(preds):
+        b = P.bodies[key]
+        blocks = b["blocks"]
+        upv = {i: nm for i, (nm, _) in enumerate(b.get("upvars") or [])}
+        defs = {}
+        for blk in blocks:
+            for st in blk["s"]:
+                if len(st["d"]) == 1:
+                    defs.setdefault(st["d"][0], []).append(st["rv"])
+
+        def origin(l, depth=0):
+            """('cand',) | ('upvar', name) | ('const', scalar) | None"""
+            if l == 2:
+                return ("cand",)
+            ds = defs.get(l)
+            if not ds or len(ds) != 1 or depth > 12:
+                return None
+            rv = ds[0]
+            if rv.get("r") in ("use", "ref", "cast"):
+                srcs = [o for o in rv.get("o", [])]
+                if rv.get("p"):
+                    pl = rv["p"]
+                elif srcs and (srcs[0].get("m") or srcs[0].get("c")):
+                    pl = srcs[0].get("m") or srcs[0].get("c")
+                elif srcs and srcs[0].get("k"):
+                    k = srcs[0]["k"]
+                    if "promoted" in k:
+                        ps = promoted_scalar(k.get("uneval"), k["promoted"])
+                        return ("const", ps[0]) if ps else None
+                    if "scalar" in k:
+                        return ("const", int(k["scalar"]))
+                    return None
+                else:
+                    return None
+                if pl[0] == 1:
+                    for e in pl[1:]:
+                        m = isinstance(e, str) and re.match(r"f:(\d+):", e)
+                        if m:
+                            return ("upvar", upv.get(int(m.group(1))))
+                    return None
+                if any(isinstance(e, str) and e.startswith("f:") for e in pl[1:]):
+                    return None
+                return origin(pl[0], depth + 1)
+            return None
+
+        def upvar_value(name):
+            """integer the captured NameId was built from, looked up by variable name in the enclosing bodies"""
+            cur = b.get("parent")
+            while cur:
+                pb = P.bodies.get(cur)
+                if not pb:
+                    return None
+                for l, nm in (pb.get("names") or {}).items():
+                    if nm == name:
+                        for blk in pb["blocks"]:
+                            t = blk["t"]
+                            if t["t"] == "call" and t.get("d") == [int(l)] and re.search(r"name_id::\{impl#\d+\}::new$", (t["f"].get("k") or {}).get("fn", "")):
+                                k = t["a"][0].get("k") if t["a"] else None
+                                if k and "int" in k:
+                                    return int(k["int"])
+                        return None
+                cur = pb.get("parent")
+            return None
+
+        # classify every bool-producing comparison
+        cond = {}
+        for bi, blk in enumerate(blocks):
+            t = blk["t"]
+            if t["t"] != "call" or len(t.get("d") or []) != 1:
+                continue
+            fn = (t["f"].get("k") or {}).get("fn", "")
+            nm = fn.rsplit("::", 1)[-1]
+            if t.get("dty") != "bool" or len(t["a"]) != 2:
+                continue
+            oa = [origin((a.get("m") or a.get("c") or [None])[0]) if (a.get("m") or a.get("c")) else None for a in t["a"]]
+            verdict = ("other", f"{nm}(..)")
+            if nm in ("ge", "gt", "le", "lt") and "PartialOrd" in fn:
+                cand_i = 0 if nm in ("ge", "gt") else 1
+                th = oa[1 - cand_i]
+                if oa[cand_i] == ("cand",) and th:
+                    v = upvar_value(th[1]) if th[0] == "upvar" else (th[1] if th[0] == "const" else None)
+                    need = 256 if nm in ("ge", "le") else 255
+                    verdict = ("just", f"id {'>=' if nm in ('ge','le') else '>'} {v}") if v is not None and v >= need else ("other", f"id compared against {v}")
+            elif nm == "eq" and "PartialEq" in fn:
+                for i in (0, 1):
+                    if oa[i] == ("cand",) and oa[1 - i] and oa[1 - i][0] == "const":
+                        v = oa[1 - i][1]
+                        verdict = ("just", f"id == {v}") if (v >= 256 or (v in alloc and v in SPEC_ALLOWED)) else ("bad", f"id == {v}")
+            cond[t["d"][0]] = verdict
+
+        # enumerate paths; state = (block, justified, value of _0, known bools)
+        bad_paths, n_paths = [], [0]
+
+        def val_of(l, vals):
+            return vals.get(l, cond.get(l))
+
+        def walk(bi, just, vals, trail, seen):
+            if n_paths[0] > 4096 or (bi, just) in seen:
+                return
+            seen = seen | {(bi, just)}
+            blk = blocks[bi]
+            vals = dict(vals)
+            for st in blk["s"]:
+                if len(st["d"]) != 1:
+                    continue
+                rv = st["rv"]
+                o = (rv.get("o") or [None])[0]
+                if rv.get("r") == "use" and o and o.get("k") and o["k"].get("ty") == "bool" and "int" in o["k"]:
+                    vals[st["d"][0]] = ("lit", o["k"]["int"] == "1")
+                elif rv.get("r") == "use" and o and (o.get("m") or o.get("c")) and len(o.get("m") or o.get("c")) == 1:
+                    s = (o.get("m") or o.get("c"))[0]
+                    if val_of(s, vals) is not None:
+                        vals[st["d"][0]] = val_of(s, vals)
+                    else:
+                        vals.pop(st["d"][0], None)
+                else:
+                    vals.pop(st["d"][0], None)
+            t = blk["t"]
+            if t["t"] == "ret":
+                n_paths[0] += 1
+                v = val_of(0, vals)
+                if v == ("lit", False):
+                    return
+                if just or (v and v[0] == "just"):
+                    return
+                bad_paths.append((trail, v))
+                return
+            if t["t"] == "call":
+                for d in t.get("d") or []:
+                    vals.pop(d, None)
+                if t.get("to"):
+                    walk(t["to"][0], just, vals, trail, seen)
+                return
+            if t["t"] == "sw":
+                pl = t["o"].get("m") or t["o"].get("c")
+                l = pl[0] if pl and len(pl) == 1 else None
+                v = val_of(l, vals) if l is not None else None
+                if t.get("oty") == "bool" and t.get("v") == ["0"]:
+                    what = v[1] if v and v[0] != "lit" else (origin(l) or ("?",))
+                    walk(t["to"][0], just, vals, trail + [f"not({what})"], seen)
+                    walk(t["to"][1], just or bool(v and v[0] == "just"), vals, trail + [f"{what}"], seen)
+                    return
+                for to in t["to"]:
+                    walk(to, just, vals, trail + ["?"], seen)
+                return
+            for to in t.get("to") or []:
+                if not blocks[to].get("cl"):
+                    walk(to, just, vals, trail, seen)
+
+        walk(0, False, {}, [], frozenset())
+        ok = not bad_paths and n_paths[0] > 0
+        obl.append({"rule": "T7", "inst": f"{norm_fn(key)}: every accepting path of the NameId predicate establishes id >= 256 or id in {sorted(alloc & SPEC_ALLOWED)} "
+                                          f"({n_paths[0]} paths; tests: {sorted(set(v[1] for v in cond.values()))})", "ok": ok})
+        if not ok:
+            trail, v = bad_paths[0] if bad_paths else ([], None)
+            findings.append({"rule": "T7", "key": f"T7|{norm_fn(key)}",
+                             "msg": f"{key} accepts a name id on the path [{' , '.join(str(x) for x in trail)}] (returning {v[1] if v else 'true'}) without having established that the id is font-specific "
+                                    f"(>= 256) or one of the reserved ids the allocator and the specification allow ({sorted(alloc & SPEC_ALLOWED)}): when the looked-up string also sits in a lower "
+                                    f"reserved record (e.g. an instance named like the family, id 1) that id is written into the table", "loc": P.body_file_line(key), "detail": {"paths": n_paths[0]}})
+    # --- who may ask for a reserved id: "The values 2 or 17 should only be used if the named instance corresponds to the font's
+    # default instance" - every caller of a lookup closure with a bool switch passes literal false or `location == default location`
+    n_callers = 0
+    for key in sorted(preds):
+        b = P.bodies[key]
+        parent = b.get("parent")
+        pb = P.bodies.get(parent) or {}
+        if pb.get("dk") != "Closure" or pb.get("argc", 0) < 2 or "bool" not in (pb.get("locals") or [""])[2:4]:
+            continue
+        for ck, cb in P.bodies.items():
+            if cb.get("crate") != "fontbe" or "#promoted" in ck:
+                continue
+            for blk in cb["blocks"]:
+                t = blk["t"]
+                if t["t"] != "call" or (t["f"].get("k") or {}).get("res") != parent or len(t["a"]) != 2:
+                    continue
+                n_callers += 1
+                tl = (t["a"][1].get("m") or t["a"][1].get("c") or [None])[0]
+                verdict = None
+                for blk2 in cb["blocks"]:
+                    for st in blk2["s"]:
+                        if st["d"] == [tl] and st["rv"].get("r") == "agg" and st["rv"].get("ak") == "tuple":
+                            o = st["rv"]["o"][-1]
+                            if o.get("k") and o["k"].get("ty") == "bool":
+                                verdict = "literal false" if o["k"].get("int") == "0" else "literal TRUE"
+                            else:
+                                bl = (o.get("m") or o.get("c") or [None])[0]
+                                for blk3 in cb["blocks"]:
+                                    t3 = blk3["t"]
+                                    if t3["t"] == "call" and t3.get("d") == [bl]:
+                                        k3 = t3["f"].get("k") or {}
+                                        if k3.get("fn", "").endswith("PartialEq::eq") and any("UserLocation" in g or "Location<" in g for g in k3.get("ga", [])):
+                                            verdict = "location == default location"
+                                        else:
+                                            verdict = f"result of {k3.get('fn')}"
+                ok = verdict in ("literal false", "location == default location")
+                obl.append({"rule": "T7", "inst": f"{norm_fn(ck)} asks {norm_fn(parent)} for a reserved id only for the default instance ({verdict})", "ok": ok})
+                if not ok:
+                    findings.append({"rule": "T7", "key": f"T7|caller|{norm_fn(ck)}|{verdict}",
+                                     "msg": f"{ck} allows {parent} to return a spec-reserved name id (2/17) under the condition '{verdict}'; the fvar specification allows that only for the instance at "
+                                            f"the default location (and never for axis or PostScript names)", "loc": P.site_loc(ck, t["l"]), "detail": {}})
+    if len(preds) < 2:
+        raise E5Error(f"T7: only {len(preds)} NameId predicates found in fontbe (fvar and STAT lookups moved?)")
+    if n_callers < 3:
+        raise E5Error(f"T7: only {n_callers} callers of the fvar name lookup found (expected axis, instance and PostScript name lookups)")
+    return findings, obl, {"t7_name_id_predicates": len(preds), "t7_alloc_reserved": sorted(alloc), "t7_lookup_callers": n_callers}
